@@ -172,6 +172,24 @@ func c15Init() {
 			setAt(t2, ps.path, c15Marker+ps.desc)
 			b, _ := json.Marshal(t2)
 			c15Cases = append(c15Cases, &C15Case{Path: "file", Where: ps.desc, Config: b, Original: ps.orig})
+			// the original value kept as a prefix (a checker that only looks at
+			// the first token, or at a parsed part, lets the rest through)
+			vars := []string{ps.orig + " " + c15Marker, ps.orig + c15Marker}
+			if strings.Contains(ps.desc, ".table.index.") || strings.Contains(ps.desc, ".table.unique.") {
+				vars = append(vars, ps.orig+" desc "+c15Marker, ps.orig+" asc) ; "+c15Marker)
+			}
+			for vi, v := range vars {
+				if ps.orig == "" || strings.Contains(ps.desc, ".urls.") {
+					// (a source URL that does not parse ends the process at
+					// start-up: jrpc2.New exits; not a SQL matter)
+					continue
+				}
+				var t3 any
+				json.Unmarshal(cj, &t3)
+				setAt(t3, ps.path, v)
+				b3, _ := json.Marshal(t3)
+				c15Cases = append(c15Cases, &C15Case{Path: "file", Where: fmt.Sprintf("%s(suffix %d)", ps.desc, vi), Config: b3, Original: ps.orig})
+			}
 		}
 		extra := func(where string, mut func(root map[string]any)) {
 			var t2 any
@@ -217,6 +235,17 @@ func c15Init() {
 				setAt(ig, ps.path, c15Marker+ps.desc)
 				b, _ := json.Marshal(ig)
 				c15Cases = append(c15Cases, &C15Case{Path: "dashboard", Where: fmt.Sprintf("integrations.%d.%s", ii, ps.desc), Submit: b, Original: ps.orig})
+				if ps.orig != "" && (strings.Contains(ps.desc, "table.index.") || strings.Contains(ps.desc, "table.unique.") || strings.HasSuffix(ps.desc, ".name")) {
+					for vi, v := range []string{ps.orig + " desc " + c15Marker, ps.orig + " " + c15Marker} {
+						var t3 any
+						json.Unmarshal(cj, &t3)
+						ig3 := t3.(map[string]any)["integrations"].([]any)[ii].(map[string]any)
+						ig3["name"] = fmt.Sprintf("dash%d", ii)
+						setAt(ig3, ps.path, v)
+						b3, _ := json.Marshal(ig3)
+						c15Cases = append(c15Cases, &C15Case{Path: "dashboard", Where: fmt.Sprintf("integrations.%d.%s(suffix %d)", ii, ps.desc, vi), Submit: b3, Original: ps.orig})
+					}
+				}
 			}
 			for _, um := range []struct {
 				where string
